@@ -720,6 +720,13 @@ def compare(ctx, site, fe, h, m, r):
 # =================================================================================================
 # well-formedness (the quantifier of the theorems) and the direct oracle
 # =================================================================================================
+# front-ends whose deferred-well-formed histories (is_wf_deferred) are judged by the specification oracle
+# (the legacy front-end used to count the lifetime from the first await - docs/C03.md 'Deferred first await', known
+# finding C03-v1-lifetime-from-first-await, fixed by 949ef3c; a front-end not listed here is only compared with its model
+# and its cases are counted as '<fe>.deferred-await.not-judged' in the evidence)
+DEFERRED_ORACLE = ('v2', 'v1')
+
+
 def is_wf(h):
     """Histories the theorems quantify over: fresh ids, every Express immediately awaited (same time, no tie),
     positive lifetimes, non-decreasing times, nothing expressed after shutdown."""
@@ -750,6 +757,77 @@ def is_wf(h):
             shut = True
         k += 1
     return True
+
+
+def ev_time(ev):
+    tag = ev[0]
+    return (ev[1] if tag == 'advance' else ev[3] if tag == 'attach' else ev[7] if tag == 'interest'
+            else ev[2] if tag == 'setdefault' else ev[-2])
+
+
+def is_wf_deferred(h, fe='v2'):
+    """The deadline clause of the property does not depend on WHEN the caller first awaits what express() returned:
+    'with Data iff it matches and arrived before the lifetime ran out, otherwise ... a timeout AT ITS DEADLINE', the
+    deadline being express time + lifetime.  A history is *deferred-well-formed* when it is well-formed except that
+    the first (only) Await of an Interest may come later than its Express: at a time ta with t <= ta < t + lifetime
+    (the awaitable is running strictly before the deadline), any events in between - except that the caller cannot
+    cancel an awaitable it has not started (no Cancel i before Await i), and that in the legacy front-end the validator
+    of an Interest is called by the awaitable itself, so it cannot answer before the awaitable runs (v1: no VDone i
+    before Await i; appv2 validates in a task of its own as soon as the Data is there).  The specification automaton
+    ignores Await, so it says what must happen.  (An Await at or after the deadline is the documented 100 ms grace path of appv2 and
+    stays outside the oracle.)"""
+    seen = {}
+    awaited = set()
+    t_last = 0
+    shut = False
+    for ev in h:
+        tag = ev[0]
+        t = ev_time(ev)
+        if t < t_last:
+            return False
+        t_last = t
+        if tag == 'express':
+            i, life, tie = ev[1], ev[5], ev[8]
+            if i in seen or life <= 0 or tie != 0 or shut:
+                return False
+            seen[i] = t + life
+        elif tag == 'await':
+            i = ev[1]
+            if i not in seen or i in awaited or ev[3] != 0 or not t < seen[i]:
+                return False
+            awaited.add(i)
+        elif tag == 'cancel' or (tag == 'vdone' and fe == 'v1'):
+            if ev[1] in seen and ev[1] not in awaited:
+                return False
+        elif tag == 'shutdown':
+            shut = True
+    return awaited == set(seen)
+
+
+def defer_awaits(h, plan):
+    """Metamorphic transformation of a well-formed history: for every Interest i of [plan] the Await that follows its
+    Express is moved to time t_express + plan[i] (0 < plan[i] < lifetime), behind every event up to that time (or in
+    front of those AT that time when plan[i] is negative: -d means 'd later, before the other events of that
+    millisecond').  Interests whose move would put the Await behind a Cancel of that Interest stay as they are.  The
+    specification (and the property) give every Interest the same outcome as in the original history."""
+    h = list(h)
+    for i, d in plan.items():
+        k = next((k for k, ev in enumerate(h) if ev[0] == 'express' and ev[1] == i), None)
+        if k is None or k + 1 >= len(h) or h[k + 1][0] != 'await' or h[k + 1][1] != i:
+            continue
+        t, life = h[k][7], h[k][5]
+        before = d < 0
+        d = abs(d)
+        if not 0 < d < life:
+            continue
+        ta = t + d
+        j = k + 2
+        while j < len(h) and (ev_time(h[j]) < ta if before else ev_time(h[j]) <= ta):
+            j += 1
+        if any(ev[0] == 'cancel' and ev[1] == i for ev in h[k + 2:j]):
+            continue
+        h = h[:k + 1] + h[k + 2:j] + [('await', i, ta, 0)] + h[j:]
+    return h
 
 
 def expressed_ids(h):
@@ -791,6 +869,12 @@ def oracle(ctx, fe, h, r, prop):
             elif got[0] != want:
                 ctx.violation(site + '.express', f'wrong-outcome:want={want[0]}:got={got[0][0]}',
                               f'Interest {i} completed with {got[0]} at {got[1]}, specification says {want}', case)
+            elif want == (3,) and got[1] != info[i][7] + info[i][5]:
+                # "... a timeout at its deadline": deadline = express time + lifetime, whenever the caller started to
+                # await (in the histories judged here the awaitable is running before the deadline)
+                ctx.violation(site + '.express', 'timeout-not-at-deadline',
+                              f'Interest {i} (expressed at {info[i][7]}, lifetime {info[i][5]}) ended with a timeout at '
+                              f'{got[1]}, its deadline is {info[i][7] + info[i][5]}', case)
         else:
             if got is not None:
                 ctx.violation(site + '.express', f'spurious-completion:state={st[0]}:got={got[0][0]}',
@@ -957,6 +1041,118 @@ def targeted(fe):
     return out
 
 
+def deferred_family(fe, full=False):
+    """Deferred first await (is_wf_deferred): the coroutine returned by express() starts to run d after the Interest was
+    expressed, 0 < d < lifetime.  Outcome and completion time are fixed by express time + lifetime, not by d.
+    (1) window table: one Interest (lifetime L, first awaited d later) and a packet (Data / Nack / verdict of a slow
+        validator / nothing) at each of D-1, D, D+1, D+d-1, D+d, D+d+1 (D = t + L), the packets AT D and D+d in all
+        three tie modes; a second Interest on the same name, awaited at once with a longer lifetime, must be served by
+        that packet in every case; variants: CanBePrefix + longer Data name, implicit digest, packet BEFORE the first
+        await, several deferred Interests awaited one after the other (the 'express all, then collect' idiom);
+    (2) every well-formed targeted pattern of [targeted] with the awaits of its Interests deferred (each one alone by
+        1 / half / lifetime-1; all of them together), see defer_awaits."""
+    P = PASS[fe]
+    out = []
+
+    def add(tag, h):
+        if is_wf_deferred(h, fe) and not is_wf(h):
+            out.append((tag, h))
+
+    def dex(i, name, t, life, d, cbp=False, dig=None, vm=None):
+        vm = vm if vm is not None else ('imm', P)
+        return [('express', i, name, cbp, dig, life, vm, t, 0)], [('await', i, t + d, 0)]
+    L = 100
+    for d in (1, 40, 99):
+        D = L
+        for off, ties in ((-1, (0,)), (0, (0, 1, 2)), (1, (0,)), (d - 1, (0,)), (d, (0, 1, 2)), (d + 1, (0,))):
+            tau = D + off
+            for tie in ties:
+                for kind in ('data', 'nack', 'verdict', 'data-prefix', 'data-digest'):
+                    e, a = dex(0, A, 0, L, d, cbp=(kind == 'data-prefix'), dig=(0 if kind == 'data-digest' else None),
+                               vm=(('def',) if kind == 'verdict' else None))
+                    other = ex(1, A, 0, life=400, cbp=(kind == 'data-prefix'), fe=fe)
+                    h = e + other
+                    if kind == 'verdict':
+                        # the Data is there in time, the validator answers at tau: V2 puts the deadline on the verdict too
+                        mid = [('data', 0, A, 20, 0)] if d > 20 else []
+                        h = h + mid + a + ([] if mid else [('data', 0, A, 20, 0)]) + [('vdone', 0, P, tau, tie)]
+                    else:
+                        pk = {'data': ('data', 0, A, tau, tie), 'data-digest': ('data', 0, A, tau, tie),
+                              'data-prefix': ('data', 0, AB, tau, tie), 'nack': ('nack', A, None, 150, tau, tie)}[kind]
+                        h = h + a + [pk]
+                    add('deferred-window', h + [('advance', 700)])
+        # nothing arrives: the timeout is raised at D, not at D + d; a second deferred Interest with another lifetime
+        e0, a0 = dex(0, A, 0, L, d)
+        e1, a1 = dex(1, AB, 0, 300, d)
+        add('deferred-silence', e0 + e1 + a0 + a1 + [('advance', 700)])
+        # the packet is there BEFORE the first await (the future is done when the awaitable starts)
+        for pk in (('data', 0, A, max(0, d - 1), 0), ('nack', A, None, 0, max(0, d - 1), 0), ('shutdown', max(0, d - 1), 0)):
+            e0, a0 = dex(0, A, 0, L, d)
+            add('deferred-early-packet', e0 + [pk] + a0 + [('advance', 700)])
+    # express all, then collect the results one after the other: the k-th Interest is first awaited when the (k-1)-th
+    # finished (at c0); lifetimes just above / well above the waiting time; the Data of the later ones just before / just
+    # after their deadline D and just before / after D + (waiting time)
+    for c0 in (60, 100):
+        for life1 in (c0 + 1, c0 + 50, 400):
+            D1 = life1
+            for arr in (None, D1 - 1, D1 + 1, D1 + c0 - 1, D1 + c0 + 1):
+                for third in (False, True):
+                    h = [('express', 0, A, False, None, 300, ('imm', P), 0, 0), ('express', 1, AB, False, None, life1, ('imm', P), 0, 0)]
+                    if third:
+                        h += [('express', 2, X, True, None, 500, ('imm', P), 0, 0)]
+                    h += [('await', 0, 0, 0), ('data', 0, A, c0, 0), ('await', 1, c0, 0)]
+                    done1 = arr if arr is not None and arr < D1 else D1
+                    tail = [(arr, ('data', 1, AB, arr, 0))] if arr is not None else []
+                    if third:
+                        # the third result is collected when the second is there; its Data comes just before / after ITS deadline
+                        tail += [(done1, ('await', 2, done1, 0)), (499 if arr is None else 501, ('data', 2, X + (5,), 499 if arr is None else 501, 0))]
+                    tail.sort(key=lambda x: x[0])
+                    add('deferred-collect', h + [e for _, e in tail] + [('advance', 1200)])
+    # every well-formed targeted pattern under deferral of its awaits
+    n_big = 0
+    for tag, h in targeted(fe):
+        if not is_wf(h):
+            continue
+        lifes = {ev[1]: ev[5] for ev in h if ev[0] == 'express'}
+        plans = [{i: d} for i, life in lifes.items() for d in (1, life // 2, -(life // 2), life - 1)]
+        plans.append({i: life // 2 for i, life in lifes.items()})
+        plans.append({i: (1 if k % 2 else life - 1) for k, (i, life) in enumerate(lifes.items())})
+        if not full and (tag.startswith('nack-reason') or tag.startswith('shutdown-lattice')):
+            # large tables (18 reason forms, 15 lattice subsets): two rotating plans per history in the quick tier
+            n_big += 1
+            plans = [plans[n_big % len(plans)], plans[-1 - n_big % 2]]
+        seen = set()
+        for plan in plans:
+            g = defer_awaits(h, plan)
+            key = repr(g)
+            if key in seen:
+                continue
+            seen.add(key)
+            add('deferred.' + tag, g)
+    return out
+
+
+def rand_history_deferred(rng, fe):
+    """A random well-formed history with the awaits of a random non-empty subset of its Interests deferred to a time
+    inside the lifetime (gravitating to 1, lifetime-1 and the times of the other events)."""
+    for _ in range(20):
+        h = fix_digest_names(rand_history(rng, fe, wf=True))
+        lifes = {ev[1]: (ev[7], ev[5]) for ev in h if ev[0] == 'express'}
+        if not lifes:
+            continue
+        times = sorted({ev_time(ev) for ev in h})
+        plan = {}
+        for i, (t, life) in lifes.items():
+            if rng.random() < 0.6:
+                cand = [1, life - 1, life // 2, rng.randint(1, life - 1)] + [x - t for x in times if 0 < x - t < life]
+                d = rng.choice(cand)
+                plan[i] = -d if rng.random() < 0.3 else d
+        g = defer_awaits(h, plan)
+        if is_wf_deferred(g, fe) and not is_wf(g):
+            return g
+    return g
+
+
 def rand_history(rng, fe, n_int=None, n_ev=None, wf=True):
     """Random history over the name lattice; event times gravitate to deadlines (equal, +-1), ties are frequent."""
     n_int = n_int or rng.randint(1, 6)
@@ -1019,6 +1215,10 @@ def rand_history(rng, fe, n_int=None, n_ev=None, wf=True):
                 deadlines.append(t + life)
                 if rng.random() < 0.8:
                     t2 = t + rng.choice((0, 10, life, life + 50))
+                    if fe == 'v1' and t2 == t + life:
+                        # the legacy front-end measures on the loop clock (float seconds): a first await at EXACTLY the
+                        # deadline is a real-number equality that float rounding decides either way; one millisecond later
+                        t2 += 1
                     h += [('await', i, t2, 0)]
                     t = t2
             deadlines.append(t + life)
@@ -1087,9 +1287,10 @@ def check_history(ctx, fe, h, tag, prop, with_oracle=True):
     r = canon_impl(fe, run_impl(fe, h))
     same = compare(ctx, 'pipeline', fe, h, m, r)
     wf = is_wf(h)
+    dwf = not wf and is_wf_deferred(h, fe)
     if len(set(m['log_ids'])) != len(m['log_ids']):
         ctx.disagree('model', 'model completed an Interest twice', {'frontend': fe, 'history': h}, m['log_ids'], None)
-    if wf and with_oracle:
+    if (wf or (dwf and fe in DEFERRED_ORACLE)) and with_oracle:
         oracle(ctx, fe, h, r, prop)
     elif r['errors'] or r['loop_errors']:
         # no_internal_error holds for every history, well-formed or not
@@ -1103,7 +1304,9 @@ def check_history(ctx, fe, h, tag, prop, with_oracle=True):
     ctx.case((fe, tuple(map(repr, h))), n_int > 0 and len(h) > 2,
              {'frontend': fe, 'tag': tag, 'history': h, 'model': m['completion'], 'impl': r['completion']},
              f'{fe}.{tag}')
-    ctx.stat(f'{fe}.wf' if wf else f'{fe}.non-wf')
+    ctx.stat(f'{fe}.wf' if wf else (f'{fe}.deferred-await' if dwf else f'{fe}.non-wf'))
+    if dwf and fe not in DEFERRED_ORACLE:
+        ctx.stat(f'{fe}.deferred-await.not-judged')
     ctx.stat(f'{fe}.ties', ties)
     for i, (o, _) in r['completion'].items():
         ctx.stat(f'{fe}.outcome.{o[0]}')
